@@ -33,15 +33,6 @@ theorem constants_as_modelled :
     Gen.srvModConsts.lookup "MAX_REQ_PAGES" = some MAX_REQ_PAGES := by
   decide +kernel
 
-/-- common hypotheses of a well-formed request -/
-structure Req (fs : Call → Ans) (h : Hdr) : Prop where
-  wf : h.WF
-  len : h.len ≤ MAX_BUFFER_SIZE + BUFFER_HEADER_SIZE
-  remapOk : ∀ e, fs (remapOf h) ≠ .err e
-
-/-- the call the handlers make with the (possibly remapped) caller ids -/
-def call (fs : Call → Ans) (h : Hdr) (m : String) (args : List Arg) : Call :=
-  { method := m, ctx := ctxFor h (fs (remapOf h)), args := args }
 
 /-- the caller ids reach the file system unchanged unless the remap call rewrote them -/
 theorem context_from_header (fs : Call → Ans) (h : Hdr) (hk : ∀ u g, fs (remapOf h) ≠ .remapSet u g) :
